@@ -31,13 +31,18 @@ META = dict(
               "discipline with two output couplings one of which is weak, a discipline input that is not a design variable), ring3 (3 strongly coupled, objective "
               "and constraint computed inside the loop), chain / fan / mid (acyclic); 2-3 design-space orders per system (couplings before / between / after the "
               "design variables, an extra variable that no discipline reads); IDF with normalize_constraints True/False, coupling variables bounded (concrete "
-              "bounds, a different range per component), unbounded or bounded below only; user constraint g as eq / ineq with value 0 or 1/4, positive or not; "
+              "bounds, a different range per component), unbounded, bounded below only or with equal bounds; user constraint g as eq / ineq with value 0 or 1/4, positive or not; "
               "objective and constraint outputs exchanged (vector objective); disciplines listed in 2 orders; "
               "leaf disciplines filling all Jacobian blocks or only the requested ones; evaluate-then-jac at one symbolic point, then jac-then-evaluate at a "
               "second symbolic point; MDF with MDAChain(inner MDAGaussSeidel | MDAJacobi), MDAGaussSeidel, MDAJacobi as main MDA, warm-started at a symbolic "
               "consistent point (evaluated once or twice), compared with IDF on fresh disciplines at (x, y*); on acyclic systems DisciplinaryOpt, "
               "MDF(MDAChain, chain_linearize=True) and IDF at the forward-evaluated couplings: values, total derivatives against a forward-accumulation oracle, "
               "IDF partials consistent with them (partial + d/dy . dy/dx; 0 for the consistency constraints); "
+              "IDF(start_at_equilibrium=True | False, MDAChain with inner Gauss-Seidel / Jacobi, both normalize_constraints values) on a strongly coupled affine "
+              "pair followed by a feed-forward tail, the same preceded by a head discipline, a numerically triangular cycle (feedback coefficient 0) and the three "
+              "acyclic systems, 2 design-space orders each: symbolic design point and symbolic initial coupling targets (free symbols, i.e. generally not at "
+              "equilibrium; the targets produced inside a non-degenerate cycle start at a symbolic consistent y*), current value of every coupling == "
+              "multidisciplinary solution, design variables unchanged, consistency constraints 0 and objective / constraint == MDF's at the initial point; "
               "design-space variable sets of the three formulations on 7 coupling graphs (concrete), IDF refusing a design space without a coupling",
         thorough="same systems, full product of orders x switches",
     ),
@@ -45,10 +50,11 @@ META = dict(
         "BiLevel and the other bi-level formulations; running an optimizer to compare optima (the claim is about the functions the optimizer would see)",
         "MDF total derivatives on strongly coupled systems (coupled adjoint: JacobianAssembly -> scipy.sparse; C07) and MDAChain(chain_linearize=False) on acyclic ones",
         "MDF away from a warm start at the solution (the MDA then iterates a data-dependent number of sweeps: C06); Newton / quasi-Newton / hybrid MDAs (compiled solvers)",
-        "IDF with n_processes > 1 (MDOParallelChain on threads), start_at_equilibrium=True (runs an MDA from the concrete current value)",
+        "IDF with n_processes > 1 (MDOParallelChain on threads); IDF(start_at_equilibrium=True) with the default MDA settings (inner MDAJacobi on threads) "
+        "and from initial targets for which the MDA needs a data-dependent number of sweeps (the MDA starts from the design-space values: targets produced inside "
+        "a cycle start at a symbolic solution y*, except in the numerically triangular cycle where they are arbitrary)",
         "differentiated_input_names_substitute, observables, maximisation (minimize_objective=False), linear disciplines turned into MDOLinearFunction (is_linear)",
         "self-coupled disciplines, sub-scenarios as disciplines, sparse / operator partial derivatives of the leaf disciplines",
-        "a coupling variable with equal bounds (normalization factor 0: the documented division is undefined)",
         "DisciplinaryOpt with the disciplines listed in an order that is not an execution (topological) order",
         "a change confined to BiLevel, to JacobianAssembly / the coupled adjoint, to the Newton-type MDAs, to scenario / driver code or to "
         "preprocess_functions (normalisation of the design vector, C01) is NOT detected",
@@ -65,9 +71,11 @@ META = dict(
         "MDF on strongly coupled systems: coupling outputs affine with a concrete rational contraction (infinity norm < 1); the disciplines' default coupling inputs "
         "are a symbolic consistent point y* = Y(x, y*) of the evaluated design point x; the design space has no current value (MDF would overwrite the warm start)",
         "IDF normalisation as documented in IDF._get_normalization_factor: component-wise |ub - lb| of the coupling variable in the design space "
-        "(ranges are powers of two in the harness, so float64 division by them is exact); "
-        "'vanishes only at a consistent point' is asserted whenever that factor is non-zero (an infinite factor is non-zero)",
+        "(ranges are powers of two in the harness, so float64 division by them is exact), 1 for a component without finite range; "
+        "'vanishes only at a consistent point' is asserted for every component",
         "the layout of a function's output follows its output_names, the layout of its input vector follows design_space.variable_names",
+        "equilibrium harness: the symbolic current values are installed with the public DesignSpace.set_current_variable (which does not validate, so no "
+        "stub is needed); they are not constrained to lie inside the bounds",
         "a user constraint c(x) <= a (>= a when positive) is exposed in the standard form c - a <= 0 (a - c <= 0)",
     ],
 )
@@ -129,6 +137,7 @@ BOUNDS = {
     "x": [(0.0, 1.0), (-1.0, 1.0)], "z": [(-1.0, 3.0), (0.0, 2.0)], "u": [(0.0, 1.0)],
     "y1": [(-3.0, 5.0)], "y2": [(-1.0, 1.0)], "y3": [(0.5, 4.5)],
     "a": [(-1.0, 3.0), (0.5, 2.5)], "b": [(-2.0, 2.0), (0.0, 8.0)], "c": [(-0.25, 0.25)],
+    "h": [(-2.0, 2.0)], "w": [(-4.0, 4.0), (1.0, 3.0)],
 }
 
 CONSTRAINTS = {  # user constraint on the output g: (constraint_type, value, positive)
@@ -277,14 +286,18 @@ def build_space(system, order, cbounds="finite", current=False):
             lb, ub = np.full(n, -INF), np.full(n, INF)
         elif name in cpl and cbounds == "lower":
             ub = np.full(n, INF)
+        elif name in cpl and cbounds == "equal":
+            ub = lb.copy()
         value = np.array([(BOUNDS[name][k][0] + BOUNDS[name][k][1]) / 2 + 0.125 for k in range(n)]) if current else None
+        if value is not None and name in cpl and cbounds == "equal":
+            value = lb.copy()
         ds.add_variable(name, size=n, lower_bound=lb, upper_bound=ub, value=value)
     return ds
 
 
 def norm_factor(name, k, cbounds):
-    if cbounds in ("unbounded", "lower"):
-        return INF
+    if cbounds in ("unbounded", "lower", "equal"):
+        return 1.0  # documented: the factor of a component that is unbounded (or whose bounds are equal) is 1
     lo, up = BOUNDS[name][k]
     return abs(up - lo)
 
@@ -365,10 +378,6 @@ class Layout:
 
 
 def scaled(v, factor):
-    """v / factor; None (= not asserted) for an infinite factor: the documented division gives 0 everywhere, which contradicts
-    'vanishes only at a consistent point'; only the latter is asserted (see the report / known finding)."""
-    if factor == INF:
-        return None
     return v / factor
 
 
@@ -426,11 +435,12 @@ def check_untouched(ctx, label, vec, orig):
 # ------------------------------------------------------------------------------------------------
 # IDF: values and partial derivatives of every function; consistency constraints vanish exactly at consistent points
 # ------------------------------------------------------------------------------------------------
-def check_idf_functions(ctx, pre, problem, system, syms, layout, point, params, cfg, user, order_jac_first=False, observe=True):
-    """All functions of an IDF problem at ``point`` = {variable: [scalars]} against the oracle.  Returns {label: (values, rows)}."""
+def check_idf_functions(ctx, pre, problem, system, syms, layout, point, params, cfg, user, order_jac_first=False, observe=True, xvec=None):
+    """All functions of an IDF problem at ``point`` = {variable: [scalars]} against the oracle.  Returns {label: (values, rows)}.
+    ``xvec``: the vector actually passed to the functions (default: ``point`` laid out in design-space order)."""
     discs = system["discs"]
     cpl = couplings_of(discs)
-    xvec = layout.vector(ctx, point)
+    xvec = layout.vector(ctx, point) if xvec is None else xvec
     orig = to_list(xvec)
     res = {}
     todo = []
@@ -781,6 +791,148 @@ def h_weak(ctx, cfg):
 
 
 # ------------------------------------------------------------------------------------------------
+# IDF(start_at_equilibrium=True): every coupling target of the design space starts at the multidisciplinary solution
+# ------------------------------------------------------------------------------------------------
+EQ_SYSTEMS = {
+    # strongly coupled affine pair followed by a feed-forward tail (w = Post(y1, y2, z)) and the objective discipline
+    "pair_tail": dict(
+        discs=[("d1", {"x": 1, "z": 2, "y2": 1}, {"y1": 1}), ("d2", {"z": 2, "y1": 1}, {"y2": 1}), ("post", {"y1": 1, "y2": 1, "z": 2}, {"w": 2}),
+               ("obj", {"w": 2, "x": 1}, {"f": 1, "g": 1})],
+        lin=SYSTEMS["sellar"]["lin"], design=["x", "z"], params=[], objective="f", constraint="g", acyclic=False,
+        orders=[["x", "z", "y1", "y2", "w"], ["w", "y2", "x", "y1", "z"]],
+    ),
+    # ... preceded by a head discipline (h = Head(x)) feeding the pair
+    "head_pair_tail": dict(
+        discs=[("head", {"x": 1, "p": 1}, {"h": 1}), ("d1", {"h": 1, "y2": 1}, {"y1": 1}), ("d2", {"y1": 1, "z": 2}, {"y2": 1}), ("post", {"y1": 1, "y2": 1}, {"w": 2}),
+               ("obj", {"w": 2, "h": 1, "z": 2}, {"f": 1, "g": 1})],
+        lin={"d1": {"y1": {"h": [[_F(1)]], "y2": [[_F(1, 2)]]}}, "d2": {"y2": {"y1": [[_F(-1, 4)]], "z": [[_F(1), _F(-1)]]}}},
+        design=["x", "z"], params=["p"], objective="f", constraint="g", acyclic=False,
+        orders=[["x", "z", "h", "y1", "y2", "w"], ["w", "y1", "z", "h", "u", "y2", "x"]],
+    ),
+    # a cycle of the coupling graph whose feedback coefficient is 0 (y1 does not depend on y2 numerically): Gauss-Seidel reaches the exact
+    # solution in one sweep from ANY start, so the initial coupling targets of the cycle can be arbitrary symbols as well
+    "tri_tail": dict(
+        discs=[("d1", {"x": 1, "y2": 1}, {"y1": 1}), ("d2", {"y1": 1, "z": 2}, {"y2": 1}), ("post", {"y1": 1, "y2": 1}, {"w": 2}), ("obj", {"w": 2, "x": 1}, {"f": 1, "g": 1})],
+        lin={"d1": {"y1": {"x": [[_F(2)]], "y2": [[_F(0)]]}}, "d2": {"y2": {"y1": [[_F(1, 2)]], "z": [[_F(1), _F(1)]]}}},
+        design=["x", "z"], params=[], objective="f", constraint="g", acyclic=False,
+        orders=[["x", "z", "y1", "y2", "w"], ["y2", "w", "x", "y1", "z"]],
+    ),
+    "chain": SYSTEMS["chain"], "fan": SYSTEMS["fan"], "mid": SYSTEMS["mid"],
+}
+
+EQ_MDAS = {  # settings of the MDAChain run by IDF (the default inner MDA is a threaded MDAJacobi: z3 is not thread-safe)
+    "gs": dict(inner_mda_name="MDAGaussSeidel", n_processes=1),
+    "jacobi": dict(inner_mda_name="MDAJacobi", inner_mda_settings=dict(n_processes=1), n_processes=1),
+}
+
+
+def solution_oracle(ctx, system, syms, xp, params, start):
+    """The multidisciplinary solution at the design point ``xp``: {variable: [scalars]} for every variable.
+
+    Couplings produced inside a cycle: symbols y* assumed consistent (y* = Y(x, y*)), or - when ``start`` is None (cold start of a
+    numerically triangular cycle) - their explicit forward values; every other output: forward evaluation in listing order."""
+    sizes = sizes_of(system)
+    discs = system["discs"]
+    strong = strong_couplings_of(discs)
+    full = dict(xp)
+    if start is not None:
+        for y in strong:
+            full[y] = list(start[y])
+    for (name, ins, outs) in discs:
+        for o in outs:
+            if o in strong and start is not None:
+                continue
+            values = {i: (full[i] if i in full else (params[i] if i in params else [0.0] * sizes[i])) for i in ins}  # (zero: a coefficient-0 feedback)
+            full[o] = [syms[name].value(o, k, values) for k in range(sizes[o])]
+    if start is not None:
+        for (name, ins, outs) in discs:
+            for o in outs:
+                if o in strong:
+                    values = disc_values(ins, full, params)
+                    for k in range(sizes[o]):
+                        ctx.assume(ctx.eq(full[o][k], syms[name].value(o, k, values)))
+    return full
+
+
+def h_equilibrium(ctx, cfg):
+    from gemseo.formulations.idf import IDF
+    from gemseo.formulations.mdf import MDF
+
+    _install_stubs(ctx, mda=True)
+    system = with_roles(EQ_SYSTEMS[cfg["system"]], cfg)
+    pre = f"{cfg['system']}: "
+    sizes = sizes_of(system)
+    order = system["orders"][cfg["order"]]
+    discs_t = system["discs"]
+    cpl = couplings_of(discs_t)
+    strong = strong_couplings_of(discs_t)
+    linear = bool(system["lin"])
+    params = sym_point(ctx, "p_", system["params"], sizes)
+    syms = build_symbols(ctx, system, linear=linear)
+    at_eq = cfg.get("start_at_equilibrium", True)
+
+    # initial design-space values: symbolic design point; symbolic, generally NON-equilibrium coupling targets t0.  With cfg["start"] ==
+    # "warm" the targets of the couplings produced inside a cycle start at a symbolic consistent y* (the MDA run by IDF starts from the
+    # design-space values, not from the disciplines' defaults, and must stop at once to stay decidable); all other targets are free.
+    design = [n for n in order if n not in cpl]
+    xp = sym_point(ctx, "v_", design, sizes)
+    t0 = sym_point(ctx, "t_", cpl, sizes)
+    warm = cfg.get("start", "warm") == "warm" and bool(strong)
+    sol = solution_oracle(ctx, system, syms, xp, params, {y: t0[y] for y in strong} if warm else None)
+
+    def space():
+        ds = build_space(system, order, current=True)
+        for n in order:  # public API, no validation of the value: symbols are accepted
+            ds.set_current_variable(n, ctx.array(list(xp[n] if n in xp else t0[n])))
+        return ds
+
+    discs = build_disciplines(ctx, system, params, linear=linear, jac_mode=cfg.get("jac_mode", "all"), listing=cfg.get("listing"))
+    kw = dict(start_at_equilibrium=True, mda_chain_settings_for_start_at_equilibrium=EQ_MDAS[cfg.get("mda", "gs")]) if at_eq else {}
+    idf = IDF(discs, system["objective"], space(), normalize_constraints=cfg["norm"], **kw)
+    user = add_user_constraint(idf, system, cfg)
+    problem = idf.optimization_problem
+    layout = Layout(problem, sizes)
+    ctx.check(pre + f"IDF design space holds all couplings {cpl}", ctx.true() if set(cpl) <= set(layout.names) else ctx.false())
+    current = problem.design_space.get_current_value(as_dict=True)
+    for n in layout.names:
+        got = to_list(current[n])
+        ctx.observe(pre + f"current {n}", obs(ctx, current[n]))
+        if n in cpl and at_eq:
+            exp, what = sol[n], "starts at the multidisciplinary solution"
+        elif n in cpl:
+            exp, what = t0[n], "initial target left untouched (start_at_equilibrium=False)"
+        else:
+            exp, what = xp[n], "design variable keeps its value"
+        if len(got) != sizes[n]:
+            ctx.check(pre + f"current value of {n}: size {len(got)} != {sizes[n]}", ctx.false())
+            continue
+        for k in range(sizes[n]):
+            ctx.check(pre + f"{n}[{k}]: {what}", ctx.eq(got[k], exp[k]))
+    if not at_eq:
+        return
+
+    # at the initial point of the design space: the consistency constraints vanish, objective / constraint are MDF's at the same design point
+    x0 = problem.design_space.get_current_value()
+    point = {n: (sol[n] if n in sol else xp[n]) for n in layout.names}
+    r_idf = check_idf_functions(ctx, pre + "IDF at the initial point: ", problem, system, syms, layout, point, params, cfg, user, observe=False, xvec=x0)
+    for lab, (gv, _) in r_idf.items():
+        if lab.startswith("consistency") and gv is not None:
+            for k, c in enumerate(gv):
+                ctx.check(pre + f"IDF {lab}[{k}] vanishes at the initial point", ctx.eq(c, 0.0))
+    # MDF on fresh disciplines (MDA warm-started at the solution through the default inputs, as in the mdf harness)
+    downstream = [d[0] for d in discs_t if not (set(d[2]) & set(strong))]
+    discs_m = build_disciplines(ctx, system, params, linear=linear, defaults={y: sol[y] for y in strong}, no_defaults_for=downstream)
+    mdf = MDF(discs_m, system["objective"], build_space(system, order), **MDAS["chain_gs"])
+    user_m = add_user_constraint(mdf, system, cfg)
+    layout_m = Layout(mdf.optimization_problem, sizes)
+    r_mdf = check_plain_functions(ctx, pre + "MDF ", mdf.optimization_problem, system, syms, layout_m, xp, sol, params, user_m, observe=False)
+    for lab, (gv, _) in r_idf.items():
+        if lab in r_mdf and gv is not None and r_mdf[lab][0] is not None:
+            for k, (a, b) in enumerate(zip(r_mdf[lab][0], gv)):
+                ctx.check(pre + f"MDF {lab}[{k}] == IDF {lab}[{k}] at the initial point", ctx.eq(a, b))
+
+
+# ------------------------------------------------------------------------------------------------
 # design-space variable sets on several coupling graphs (concrete)
 # ------------------------------------------------------------------------------------------------
 GRAPHS = {
@@ -854,12 +1006,13 @@ def configs(tier):
                     out.append(("idf", dict(system=sname, order=o, norm=norm, constraint=cons[i % len(cons)], **var)))
                     i += 1
         # coupling variables without (upper) bounds, default normalisation
-        # (harness name idf_unbounded: same function; these configurations exhibit the recorded defect, see known_findings / the report)
+        # (harness name idf_unbounded: same function; these configurations exhibited the repaired defect C17-idf-unbounded-coupling-normalization)
         if not quick or sname in ("sellar", "vec", "chain"):
             out.append(("idf_unbounded", dict(system=sname, order=0, norm=True, cbounds="unbounded", constraint="ineq")))
         if not quick or sname in ("sellar", "chain"):
             out.append(("idf_unbounded", dict(system=sname, order=0, norm=True, cbounds="lower", constraint="none")))
             out.append(("idf_unbounded", dict(system=sname, order=0, norm=False, cbounds="unbounded", constraint="none")))
+            out.append(("idf_unbounded", dict(system=sname, order=0, norm=True, cbounds="equal", constraint="eq", current=True)))
     # objective and constraint outputs exchanged (vector objective on sellar and fan)
     for k, sname in enumerate(SYSTEMS):
         out.append(("idf", dict(system=sname, order=1, norm=bool(k % 2), swap=True, constraint=cons[k % 4], second=False)))
@@ -897,10 +1050,25 @@ def configs(tier):
     out.append(("weak", dict(system="chain", order=0, formulations=["dopt", "mdf", "idf"], swap=True, constraint="ineq_val", norm=True)))
     out.append(("weak", dict(system="fan", order=0, formulations=["dopt", "mdf", "idf"], swap=True, constraint="ineq_pos", norm=False, jac_mode="requested")))
     out.append(("weak", dict(system="mid", order=0, formulations=["dopt", "mdf", "idf"], swap=True, constraint="eq", norm=True, listing=[1, 2, 0])))
+    # ---- IDF started at equilibrium ---------------------------------------------------------------
+    i = 0
+    for sname, system in EQ_SYSTEMS.items():
+        for o in range(len(system["orders"])):
+            starts = ["warm"] if sname != "tri_tail" else ["cold"]
+            for st in starts:
+                for mda in (("gs", "jacobi") if (st == "warm" and not system["acyclic"]) else ("gs",)):
+                    if quick and mda == "jacobi" and o == 0:
+                        continue
+                    out.append(("equilibrium", dict(system=sname, order=o, start=st, mda=mda, norm=bool((i + 1) % 2), constraint=cons[i % 4],
+                                                    jac_mode="all" if i % 2 else "requested", swap=(i % 5 == 4))))
+                    i += 1
+    out.append(("equilibrium", dict(system="pair_tail", order=0, start="warm", mda="gs", norm=True, constraint="ineq", listing=[3, 2, 1, 0])))
+    out.append(("equilibrium", dict(system="head_pair_tail", order=1, start="warm", norm=True, constraint="ineq", start_at_equilibrium=False)))
+    out.append(("equilibrium", dict(system="chain", order=0, norm=False, constraint="none", start_at_equilibrium=False)))
     # ---- variable sets ---------------------------------------------------------------------------
     for g in GRAPHS:
         out.append(("spaces", dict(graph=g, selftest=False)))
     return out
 
 
-HARNESSES = {"idf": h_idf, "idf_unbounded": h_idf, "mdf": h_mdf, "weak": h_weak, "spaces": h_spaces}
+HARNESSES = {"idf": h_idf, "idf_unbounded": h_idf, "mdf": h_mdf, "weak": h_weak, "equilibrium": h_equilibrium, "spaces": h_spaces}
